@@ -9,6 +9,7 @@ import (
 	"github.com/transparency-dev/witness/verifmc/choice"
 	"github.com/transparency-dev/witness/verifmc/lspwrap"
 	"net/http"
+	"os"
 	"net/http/httptest"
 	"strings"
 	"sync/atomic"
@@ -284,7 +285,7 @@ func c10Malformed(run *ev.Run, u *uni.U, gen *wh.CPGen, la, lb wh.LogCfg) {
 			if pre {
 				cp, _ := gen.Get(la, u.Main, 2, "plain")
 				if r := c10Serve(h, c10Body(0, nil, cp)); r.Status != 200 {
-					ev.Internal("C10 malformed: seeding failed with %d", r.Status)
+					c10SeedRefused(run, "malformed", r.Status)
 				}
 			}
 			before := e.Snap()
@@ -430,7 +431,7 @@ func c10Overlap(run *ev.Run, u *uni.U, gen *wh.CPGen, la, lb wh.LogCfg) {
 		for _, l := range []wh.LogCfg{la, lb} {
 			cp, _ := gen.Get(l, m, 2, "plain")
 			if r := c10Serve(h, c10Body(0, nil, cp)); r.Status != 200 {
-				ev.Internal("C10 overlap: seeding failed with %d", r.Status)
+				c10SeedRefused(run, "overlap", r.Status)
 			}
 		}
 	}
@@ -526,7 +527,7 @@ func c10Faults(run *ev.Run, u *uni.U, gen *wh.CPGen, la, lb wh.LogCfg) {
 				if rq.old > 0 {
 					cp, _ := gen.Get(la, m, rq.old, "plain")
 					if r := c10Serve(h, c10Body(0, nil, cp)); r.Status != 200 {
-						ev.Internal("C10 faults: seeding failed with %d", r.Status)
+						c10SeedRefused(run, "faults", r.Status)
 					}
 				}
 				cp, meta := gen.Get(la, m, rq.n, "plain")
@@ -615,4 +616,15 @@ func c10HugeSizes(run *ev.Run, u *uni.U, la, lb wh.LogCfg) {
 		}
 		e.Close()
 	}
+}
+
+// c10SeedRefused: a valid first submission (old size 0, no proof, a checkpoint
+// the log signed) to the real handler in front of an empty real witness was
+// not answered 200 - the same oracle as the main sweep's (verdict accepted =>
+// 200). The leg that needed the seeded state cannot go on; the run ends here.
+func c10SeedRefused(run *ev.Run, leg string, status int) {
+	run.Report(fmt.Sprintf("status verdict=accepted expected-status=200 got-status=%d stored=none", status),
+		fmt.Sprintf("a valid first submission (old size 0, empty proof, log-signed checkpoint of size 2) was answered %d, want 200 (while preparing the %s leg; exploration cut here)", status, leg), map[string]any{"kind": "seed-refused", "leg": leg})
+	run.Set("exhaustive", false)
+	os.Exit(run.Finish())
 }
